@@ -1,2 +1,20 @@
-From ZC Require Import Model.Base Model.WireDec.
-Example C02_placeholder : True. Proof. exact I. Qed.
+(* C02 - the decoder is total, bounded and faithful on arbitrary datagrams. Statements only.
+   parse : Model/WireDec.v mirrors DNSIncoming(data) + .answers() (tied to the code by the correspondence check on
+   every generated datagram); decode_catches = the DECODE_EXCEPTIONS tuple regenerated from incoming.py. *)
+From ZC Require Import Model.Base Model.PyRec Model.Dict Model.Utf8 Model.WireDec Gen.Const Gen.Shapes Proofs.C02_total.
+
+(* For every byte string, no exception other than the classes the decoder itself catches leaves the constructor or
+   answers(): the pointer recursion needs at most 129 frames (hop bound of the repaired code) and no structural fuel ever
+   runs out - per name at most 129 frames x (len + 1) loop turns, whatever the compression graph looks like. *)
+Theorem C02_total : forall data now scope frames,
+  Forall (fun b => 0 <= b < 256) data -> (130 <= frames)%nat ->
+  m_escaped (parse data now scope frames) = None.
+Proof. exact parse_total_bytes. Qed.
+Print Assumptions C02_total.
+
+(* every name handed out - owners, PTR/CNAME targets, SRV hosts, NSEC next names - is at most 253 characters *)
+Theorem C02_names : forall data now scope frames,
+  Forall (fun r => Forall (fun n => Z.of_nat (length n) <= 253) (names_of r))
+         (m_questions (parse data now scope frames) ++ m_answers (parse data now scope frames)).
+Proof. exact parse_names. Qed.
+Print Assumptions C02_names.
